@@ -42,6 +42,8 @@ type mgrRig struct {
 	lifetimes int
 	unsub     datatransfer.Unsubscribe
 	opts      []dtimpl.DataTransferOption
+	// validators whose registration was refused (the type was taken)
+	impostors map[datatransfer.TypeIdentifier]*dbl.Validator
 }
 
 func newMgrRig(t fataler, self peer.ID, ds *dbl.RecDatastore, types ...datatransfer.TypeIdentifier) *mgrRig {
@@ -80,6 +82,19 @@ func (r *mgrRig) start(types []datatransfer.TypeIdentifier) {
 		}
 		if err := mgr.RegisterVoucherType(typ, v); err != nil {
 			r.t.Fatalf("HARNESS RegisterVoucherType(%q): %v", typ, err)
+		}
+		// a second registration for the same type is refused and changes nothing: the
+		// impostor must never be consulted
+		if r.impostors == nil {
+			r.impostors = map[datatransfer.TypeIdentifier]*dbl.Validator{}
+		}
+		imp := r.impostors[typ]
+		if imp == nil {
+			imp = dbl.NewValidator(typ)
+			r.impostors[typ] = imp
+		}
+		if err := mgr.RegisterVoucherType(typ, imp); err == nil {
+			r.t.Fatalf("VIOLATION-KEY=C04/duplicate-registration-accepted a second validator was registered for voucher type %q", typ)
 		}
 	}
 	ready := make(chan error, 4)
@@ -176,6 +191,15 @@ func (r *mgrRig) closeCh(chid datatransfer.ChannelID) error {
 		time.Sleep(50 * time.Microsecond)
 	}
 	return nil
+}
+
+// impostorCalls counts the validator calls that went to a validator whose registration was refused.
+func (r *mgrRig) impostorCalls() int {
+	n := 0
+	for _, imp := range r.impostors {
+		n += imp.Len()
+	}
+	return n
 }
 
 func (r *mgrRig) syncAll() {
